@@ -256,6 +256,11 @@ def trees():
             '@_ZSt28_Rb_tree_rebalance_for_erasePSt18_Rb_tree_node_baseRS_': m_rb_erase}
 
 # ---------------- output sinks: formatting is never the subject of an E2 check ----------------
+def _dummy_locale(it):
+    p = getattr(it, '_dummy_loc', None)
+    if p is None: p = it.alloc(16, 'classic-locale'); it._dummy_loc = p
+    return p
+
 def sinks():
     ret0 = lambda it, a: a[0]
     none = lambda it, a: None
@@ -263,6 +268,7 @@ def sinks():
         're:^@_ZNSolsE': ret0, 're:^@_ZNSo9_M_insertI': ret0, 're:^@_ZSt16__ostream_insertIcSt11char_traitsIcEE': ret0,
         're:^@_ZStlsISt11char_traitsIcEERSt13basic_ostreamIcT_E': ret0, 're:^@_ZSt4endlIcSt11char_traitsIcEE': ret0,
         're:^@_ZNSo3putEc': ret0, 're:^@_ZNSo5flushEv': ret0, 're:^@_ZSt5flush': ret0,
+        're:^@_ZNSt6locale7classicEv': lambda it, a: _dummy_locale(it), 're:^@_ZNKSt6localeeqERKS_': lambda it, a: 1, 're:^@_ZNSt6localeC[12]ERKS_': none, 're:^@_ZNSt6localeaSERKS_': ret0,
         're:^@_ZNSt6localeC[12]Ev': none, 're:^@_ZNSt6localeD[12]Ev': none, 're:^@_ZNSt8ios_base4InitC': none, 're:^@_ZNSt8ios_baseD2Ev': none, 're:^@_ZNSt8ios_baseC2Ev': none,
         're:^@_ZNSt9basic_iosIcSt11char_traitsIcEE4initE': none, 're:^@_ZNSt9basic_iosIcSt11char_traitsIcEE5clearE': none,
     }
